@@ -1,7 +1,8 @@
 (** C02 -- Two-particle Green's function equals its definition on both evaluation paths.
     Statements only; proofs are in PV.ChiProofs (model: PV.Chi; generated leaf arithmetic: PVgen.Gen_Multiterm). *)
-Require Import Bool List Arith ZArith Field_theory.
-From PV Require Import Outcome EDSpec Chi ChiProofs.
+Require Import Bool List Arith ZArith Field_theory Reals.
+From Coquelicot Require Import Coquelicot.
+From PV Require Import Outcome EDSpec Chi ChiProofs ChiLimits ChiTermListR.
 From PVgen Require Import Gen_Multiterm.
 Import ListNotations.
 
@@ -76,3 +77,80 @@ Theorem table_empty_freqs_undefined :
     ps <> [] /\ gf_compute_gen Z Zops false false 0 Ztols clear [] (gf_prepared Z ps) = OOB.
 Proof. exact ChiProofs.table_empty_freqs_undefined. Qed.
 Print Assumptions table_empty_freqs_undefined.
+
+(** The resonant coefficients are the limits of the non-resonant expressions (generated code at R; Gibbs weights
+    w_k = w_i e^{-beta (E_k - E_i)}): for z1 + z2 = 0,  CoeffZ1Z2NonRes / (z1 + z2 - P1 - P2) -> CoeffZ1Z2Res  as E_k -> E_i ... *)
+Theorem resonant_is_limit_12 :
+  forall (abs_gt abs_lt real_ge : R -> R -> bool) (tol C beta Ei Ej El wi wj wl z1 z3 : R), beta <> 0%R ->
+  is_lim (fun x =>
+            (mt_CoeffZ1Z2NonRes R Rplus Rminus Rmult Rdiv Ropp abs_gt abs_lt real_ge tol C beta Ei Ej (Ei + x) El wi wj (wi * exp (- (beta * x))) wl /
+             res_diff_z1z2 R Rplus Rminus Rmult Rdiv Ropp abs_gt abs_lt real_ge
+               (mt_P1 R Rplus Rminus Rmult Rdiv Ropp abs_gt abs_lt real_ge tol C beta Ei Ej (Ei + x) El wi wj (wi * exp (- (beta * x))) wl)
+               (mt_P2 R Rplus Rminus Rmult Rdiv Ropp abs_gt abs_lt real_ge tol C beta Ei Ej (Ei + x) El wi wj (wi * exp (- (beta * x))) wl)
+               (mt_P3 R Rplus Rminus Rmult Rdiv Ropp abs_gt abs_lt real_ge tol C beta Ei Ej (Ei + x) El wi wj (wi * exp (- (beta * x))) wl)
+               z1 (- z1) z3)%R)
+         0%R
+         (mt_CoeffZ1Z2Res R Rplus Rminus Rmult Rdiv Ropp abs_gt abs_lt real_ge tol C beta Ei Ej Ei El wi wj wi wl).
+Proof. exact ChiLimits.resonant_is_limit_12. Qed.
+Print Assumptions resonant_is_limit_12.
+
+(** ... and for z2 + z3 = 0,  CoeffZ2Z3NonRes / (z2 + z3 - P2 - P3) -> CoeffZ2Z3Res  as E_l -> E_j. *)
+Theorem resonant_is_limit_23 :
+  forall (abs_gt abs_lt real_ge : R -> R -> bool) (tol C beta Ei Ej Ek wi wj wk z1 z2 : R), beta <> 0%R ->
+  is_lim (fun x =>
+            (mt_CoeffZ2Z3NonRes R Rplus Rminus Rmult Rdiv Ropp abs_gt abs_lt real_ge tol C beta Ei Ej Ek (Ej + x) wi wj wk (wj * exp (- (beta * x))) /
+             res_diff_z2z3 R Rplus Rminus Rmult Rdiv Ropp abs_gt abs_lt real_ge
+               (mt_P1 R Rplus Rminus Rmult Rdiv Ropp abs_gt abs_lt real_ge tol C beta Ei Ej Ek (Ej + x) wi wj wk (wj * exp (- (beta * x))))
+               (mt_P2 R Rplus Rminus Rmult Rdiv Ropp abs_gt abs_lt real_ge tol C beta Ei Ej Ek (Ej + x) wi wj wk (wj * exp (- (beta * x))))
+               (mt_P3 R Rplus Rminus Rmult Rdiv Ropp abs_gt abs_lt real_ge tol C beta Ei Ej Ek (Ej + x) wi wj wk (wj * exp (- (beta * x))))
+               z1 z2 (- z2))%R)
+         0%R
+         (mt_CoeffZ2Z3Res R Rplus Rminus Rmult Rdiv Ropp abs_gt abs_lt real_ge tol C beta Ei Ej Ek Ej wi wj wk wj).
+Proof. exact ChiLimits.resonant_is_limit_23. Qed.
+Print Assumptions resonant_is_limit_23.
+
+(** Term lists as they are in the repository (add_term without retry): if, per term list, value of the flag and pole
+    position, any two pole values are at most tol/4 or at least 2 tol apart, no std::set insertion is ever refused, i.e.
+    no term weight is lost -- whatever the order of the terms and the weighted means produced by operator+=. *)
+Theorem chi_termlist_no_loss :
+  forall (tol tneg : R) (V0 V1 V2 : bool -> list R) (ts : list (nrterm R)),
+  (0 < tol)%R ->
+  (forall f, separated tol (V0 f)) -> (forall f, separated tol (V1 f)) -> (forall f, separated tol (V2 f)) ->
+  (forall t, In t ts -> (0 < nr_weight R t)%Z /\ In (nr_p0 R t) (V0 (nr_isz4 R t)) /\ In (nr_p1 R t) (V1 (nr_isz4 R t)) /\
+                        In (nr_p2 R t) (V2 (nr_isz4 R t))) ->
+  fst (add_terms_gen (nrterm R) (nr_comp R Rops tol) (nr_plus R Rops) (nr_negl R Rops tneg) false ts (O, [])) = O.
+Proof. exact ChiTermListR.chi_termlist_no_loss_nonresonant. Qed.
+Print Assumptions chi_termlist_no_loss.
+
+Theorem chi_termlist_no_loss_resonant :
+  forall (tol tneg : R) (V0 V1 V2 : bool -> list R) (ts : list (rterm R)),
+  (0 < tol)%R ->
+  (forall f, separated tol (V0 f)) -> (forall f, separated tol (V1 f)) -> (forall f, separated tol (V2 f)) ->
+  (forall t, In t ts -> (0 < r_weight R t)%Z /\ In (r_p0 R t) (V0 (r_isz1z2 R t)) /\ In (r_p1 R t) (V1 (r_isz1z2 R t)) /\
+                        In (r_p2 R t) (V2 (r_isz1z2 R t))) ->
+  fst (add_terms_gen (rterm R) (r_comp R Rops tol) (r_plus R Rops) (r_negl R Rops tneg) false ts (O, [])) = O.
+Proof. exact ChiTermListR.chi_termlist_no_loss_resonant. Qed.
+Print Assumptions chi_termlist_no_loss_resonant.
+
+(** Without the separation hypothesis weight IS lost by the unrepaired add_term (integer poles 0, 12, 6; tolerance 10):
+    one insertion refused, coefficient sum 1 instead of 3 ... *)
+Theorem chi_termlist_loss_witness :
+  let r := add_terms_gen (nrterm Z) (nr_comp Z Zops 10%Z) (nr_plus Z Zops) (nr_negl Z Zops 0%Z) false loss_terms (O, []) in
+  fst r = 1%nat /\ coeff_total (snd r) = 1%Z /\ coeff_total loss_terms = 3%Z.
+Proof. exact ChiProofs.chi_termlist_loss_witness. Qed.
+Print Assumptions chi_termlist_loss_witness.
+
+(** ... while the repaired add_term (proposed/fix-termlist-refused-insert.diff: insert, and while an equivalent term
+    blocks the insertion reduce with it and retry) conserves the coefficient sum for ANY comparator tolerance and any
+    sequence of terms (no term dropped as negligible). *)
+Theorem chi_termlist_retry_no_loss :
+  forall (K : Type) (NO : numops K),
+  (forall a b c, nadd K NO a (nadd K NO b c) = nadd K NO (nadd K NO a b) c) ->
+  (forall a b, nadd K NO a b = nadd K NO b a) ->
+  (forall a, nadd K NO (n0 K NO) a = a) ->
+  forall (tol : K) (ts : list (nrterm K)) (n : nat) (l : list (nrterm K)),
+  exists l', add_terms_gen (nrterm K) (nr_comp K NO tol) (nr_plus K NO) (fun _ _ => false) true ts (n, l) = (n, l') /\
+    total (nrterm K) K (nadd K NO) (n0 K NO) (nr_coeff K) l' =
+    nadd K NO (total (nrterm K) K (nadd K NO) (n0 K NO) (nr_coeff K) l) (total (nrterm K) K (nadd K NO) (n0 K NO) (nr_coeff K) ts).
+Proof. exact ChiProofs.chi_termlist_retry_no_loss. Qed.
+Print Assumptions chi_termlist_retry_no_loss.
